@@ -51,8 +51,9 @@ def run(ctx):
         error_discipline(ctx, "C11.E", fv, "cgr::vectorise", "composition::cgr::CgrComputer::vectorise_one")
     from . import c06
     c06.reader_deps(ctx, "C11")
-    from . import c15
+    from . import c15, c17
     c15.cli_arm_dep(ctx, "C11", ('Cgr',))
+    c17.open_rules(dep(ctx, "C11", "C17"))
 
 
 def table_rule(ctx, rule, path):
